@@ -1,7 +1,10 @@
 import Driver.Common
 import FranzVerif.Model.C12
 import FranzVerif.Spec.C12
-/-! Sub-driver C12 (pure half). Input lines `op | impl`; output `model | verdict | nontrivial`.
+import Driver.ShareHist
+/-! Sub-driver C12. Input lines `op | impl`; output `model | verdict | nontrivial`.
+`share …` lines (protocol half) go to the history monitor (`Driver.ShareHist`); the pure-half ops below carry the
+kind token `ackr` in front (`ackr build …`).
 Entry token `off,status,src,epoch,id`; range token `first,last,src,epoch,type`.
 
   build <entry>* / <gap>*   | <range>* r<0|1>     model: `buildAckRanges`; Spec: `specBuild` on the implementation's
@@ -181,7 +184,9 @@ def doTry (race : Bool) (op impl : List String) : String :=
 def step (_ : Unit) (line : String) : Unit × String :=
   let (op, impl) := splitBar line
   let its := toks impl
-  match toks op with
+  match (match toks op with | "ackr" :: r => r | r => r) with
+  | "share" :: _ => ((), Driver.ShareHist.handle impl)
+  | "sharedbg" :: _ => ((), Driver.ShareHist.debug impl)
   | "build" :: rest => ((), doBuild rest its)
   | "coal" :: rest => ((), doCoal rest its)
   | "stale" :: rest => ((), doStale rest its)
